@@ -161,6 +161,19 @@ func c16ProbeName(name string, jsonReps int) (c16Probe, string) {
 	p.New = c16Outcome(c, err)
 	c, err = psatoken.DecodeClaimsFromCBOR(c16CBORToken(name))
 	p.CBOR = c16Outcome(c, err)
+	// the same token with the label 265 in a longer (well-formed) spelling: if
+	// the decoder takes that spelling at all, it declares the same profile
+	{
+		b1, b2 := c16Body()
+		for _, w := range []int{4, 8} {
+			ps := append(bodyPairs(b1), bodyPairs(b2)...)
+			ps = append(ps, icbor.P(icbor.I(-75000), icbor.Tstr(name)), icbor.P(icbor.U(265).WithHead(w), icbor.Tstr(name)))
+			c, err = psatoken.DecodeClaimsFromCBOR(icbor.Encode(icbor.Map(ps...)))
+			if o := c16Outcome(c, err); err == nil && o != p.CBOR {
+				return p, fmt.Sprintf("a CBOR token declaring %q under the label 265 written with a %d-byte argument decodes as %s, the same token with the shortest spelling of the label as %s", name, w, o, p.CBOR)
+			}
+		}
+	}
 	doc := c16JSONDoc(name)
 	for i := 0; i < jsonReps; i++ {
 		c, err = psatoken.DecodeClaimsFromJSON(doc)
@@ -305,6 +318,46 @@ func (mc *c16Machine) checkConflicts(t *rapid.T, reps int) {
 		for i := 0; i < 2; i++ {
 			if c, err := psatoken.DecodeClaimsFromJSON(doc); err == nil {
 				mc.fail(t, "a JSON document carrying the registered name %q under %s, the profile member of OTHER profiles, was decoded as %T on call %d instead of being rejected", l.val, l.member, c, i+1)
+			}
+		}
+	}
+	// members that differ from a profile member only in the CASE of their
+	// letters, carrying another value: whatever the decoder makes of them, it
+	// makes the same of them on every call
+	{
+		names := []string{P1Name, P2Name, "http://example.com/verif/never-registered"}
+		for _, n := range c16DynNames {
+			if mc.reg[n] != "" {
+				names = append(names, n)
+				break
+			}
+		}
+		creps := reps
+		if creps > 12 {
+			creps = 12
+		}
+		for _, mv := range [][2]string{{"eat-profile", "Eat-Profile"}, {"psa-profile", "PSA-PROFILE"}} {
+			for i, va := range names {
+				vb := names[(i+1)%len(names)]
+				for _, variantFirst := range []bool{false, true} {
+					o := modelJN(b2)
+					if variantFirst {
+						o.keys, o.vals = append([]string{mv[1]}, append(o.keys, mv[0])...), append([]*jn{jStr(vb)}, append(o.vals, jStr(va))...)
+					} else {
+						o.keys, o.vals = append(o.keys, mv[0], mv[1]), append(o.vals, jStr(va), jStr(vb))
+					}
+					doc := []byte(o.String())
+					first := ""
+					for k := 0; k < creps; k++ {
+						c, err := psatoken.DecodeClaimsFromJSON(doc)
+						oc := c16Outcome(c, err)
+						if k == 0 {
+							first = oc
+						} else if oc != first {
+							mc.fail(t, "JSON dispatch of one document (members %q=%q and %q=%q) gives different outcomes on repeated calls: %s on the first, %s on call %d", mv[0], va, mv[1], vb, first, oc, k+1)
+						}
+					}
+				}
 			}
 		}
 	}
@@ -683,7 +736,7 @@ func sortStrings(s []string) {
 }
 
 func TestC16_RegistryHistories(t *testing.T) {
-	st := NewStats("C16", "TestC16_RegistryHistories", "rapid state machine, every history starting from the pristine register (checkpoint hook), 1..30 steps over {Register(new name) as extension-of-P2 (shares eat-profile) / extension-of-P1 (shares psa-profile) / own JSON member; Register(existing name: built-in, the default entry, previously added); Register(claims type without profile field / without json tag); NewClaims(name); Decode CBOR/JSON of a token declaring name, repeated 32x; Mutate(instance k) through every setter, through every exported pointer/slice in place, through returned component objects and the container; Probe}. 0..8 extra profiles. Oracle: model register name->shape; after every registration (successful or not) the complete probe battery (NewClaims, CBOR decode, JSON decode for 12 names: type, reported profile, validity) must equal the model's expectation: unchanged for every name not registered by this step; every created/decoded instance has a deep fingerprint equal to the first one obtained the same way and is never the same object as another; after every step every untouched instance's fingerprint is unchanged; repeated JSON dispatch gives one outcome, and a document naming two different registered profiles is rejected on each of 32 calls. Non-trivial = history contains a failed registration or a mutate followed by a create/decode; distinct = history")
+	st := NewStats("C16", "TestC16_RegistryHistories", "rapid state machine, every history starting from the pristine register (checkpoint hook), 1..30 steps over {Register(new name) as extension-of-P2 (shares eat-profile) / extension-of-P1 (shares psa-profile) / own JSON member; Register(existing name: built-in, the default entry, previously added); Register(claims type without profile field / without json tag); NewClaims(name); Decode CBOR/JSON of a token declaring name, repeated 32x; Mutate(instance k) through every setter, through every exported pointer/slice in place, through returned component objects and the container; Probe}. 0..8 extra profiles. Oracle: model register name->shape; after every registration (successful or not) the complete probe battery (NewClaims, CBOR decode, JSON decode for 12 names: type, reported profile, validity) must equal the model's expectation: unchanged for every name not registered by this step; every created/decoded instance has a deep fingerprint equal to the first one obtained the same way and is never the same object as another; after every step every untouched instance's fingerprint is unchanged; repeated JSON dispatch gives one outcome (also for documents carrying a member that differs from a profile member only in letter case, with another value), a token whose label 265 is written in a longer spelling declares the same profile if it decodes at all, and a document naming two different registered profiles is rejected on each of 32 calls. Non-trivial = history contains a failed registration or a mutate followed by a create/decode; distinct = history")
 	st.Require = []string{"failed-registration", "mutate-then-read", "registered=0", "registered=1", "registered=3", "nested-registration", "two-embedded-shape", "faulty-factory"}
 	defer st.Flush(t)
 	registerMu.Lock()
